@@ -208,6 +208,11 @@ func (e *Exec) intrinsic(caller *frame, fn *ssa.Function, name string, args []Va
 	case "runtime.Gosched":
 		e.yield()
 		return nil, true
+	case "runtime.GOMAXPROCS", "runtime.NumCPU":
+		// environment stub: the number of processors is an arbitrary value in 1..4 (an input of the path, so that
+		// code whose synchronisation depends on it is explored for each value; native replay sets GOMAXPROCS to it)
+		v, _ := e.harnessAPI(caller, fn, "verifNondetInt", []Value{"env_gomaxprocs", uint64(1), uint64(4)})
+		return e.concInt(v, types.Typ[types.Int]), true
 	case "reflect.ValueOf":
 		return Native{reflectVal{args[0].(Iface)}}, true
 	case "(reflect.Value).IsZero":
@@ -318,7 +323,7 @@ var intrinsicNames = []string{
 	"errors.As", "strconv.Itoa", "strconv.Atoi",
 	"(*sync.WaitGroup).Add", "(*sync.WaitGroup).Done", "(*sync.WaitGroup).Wait",
 	"(*sync.Mutex).Lock", "(*sync.Mutex).Unlock", "(*sync.RWMutex).Lock", "(*sync.RWMutex).Unlock", "(*sync.RWMutex).RLock", "(*sync.RWMutex).RUnlock",
-	"runtime.Gosched",
+	"runtime.Gosched", "runtime.GOMAXPROCS", "runtime.NumCPU",
 	"reflect.ValueOf", "(reflect.Value).IsZero", "internal/reflectlite.ValueOf", "(internal/reflectlite.Value).Len", "internal/reflectlite.Swapper",
 	"regexp.MustCompile", "(*regexp.Regexp).Match", "(*regexp.Regexp).MatchString", "(*regexp.Regexp).FindStringSubmatch",
 	"strings.ToLower", "strings.ToUpper", "strings.Contains", "strings.HasPrefix", "strings.HasSuffix", "strings.Repeat",
